@@ -230,6 +230,10 @@ func (m *C07Mon) End(h *Hand, s *pokerface.GameState) {
 		return
 	}
 	for _, t := range h.Trace {
+		if t.Kind == "reload" {
+			g.LoadState(cloneGS(g.GetState()))
+			continue
+		}
 		err := applyOp(g, t.Op)
 		k++
 		if (err == nil) != (t.Err == "") {
